@@ -867,6 +867,13 @@ func Siblings(s string) []string {
 	return out
 }
 
+// Placeholders are the spellings that file formats, tools and programmers use for "nothing here", "not known" or "not a
+// number", together with the fillers poly's own writers put into empty columns. As field values they are text like any
+// other and come back as they were given - exactly the values a well-meant clean-up normalises away.
+var Placeholders = []string{".", "-", "?", "*", "_", "...", "unknown", "Unknown", "UNKNOWN", "none", "None", "null", "NULL", "nil", "NA", "N/A", "n/a",
+	"NaN", "nan", "Inf", "+Inf", "-Inf", "inf", "Infinity", "0", "-0", "0.0", "1", "-1", "1e3", "1.50", "true", "false", "TRUE", "yes", "no",
+	"undefined", "default", "feature", "region", "misc_feature", "source", "gene", "unnamed", "Untitled", "empty", "EMPTY", "UNK", "unk", "bp", "aa", "DNA", "linear", "circular"}
+
 var pastOnce sync.Map
 
 // Past gives the process a past before its first judged case: call(i, true) for i < probes makes calls with arguments
